@@ -1509,6 +1509,9 @@ static JanetSignal janet_continue_no_check(JanetFiber *fiber, Janet in, Janet *o
         if (janet_vm.root_fiber == NULL) janet_vm.root_fiber = fiber;
         JanetFiber *child = fiber->child;
         uint32_t instr = (janet_stack_frame(fiber->data + fiber->frame)->pc)[0];
+        /* Until the child hands control back this fiber is live on the C stack: mark it alive so that code
+         * running inside the child cannot resume or cancel it a second time. */
+        janet_fiber_set_status(fiber, JANET_STATUS_ALIVE);
         janet_vm.stackn++;
         JanetSignal sig = janet_continue(child, in, &in);
         janet_vm.stackn--;
